@@ -48,6 +48,13 @@ def evaluate(i, scn):
         return dict(found=ck.found, P=ck.P, D=ck.D, M=ck.M, count={"refused_by_solver": 1}, ctx=dict(wide=c["wide"]))
     W.check_single(ck, scn, sw, m, tag=cls.__name__)
     count = {cls.__name__: 1}
+    # user weights are an xarray object: they belong to labels.  The same weights stored in the reverse coordinate order
+    # (descending latitudes in a file) are the same weights, and the world's prediction has to come out again
+    if c["wp"] != "ones" and not sw.lat and c["kind"] == "perm" and sw.p >= 2:
+        wr = sw.weights().isel({sw.fname: slice(None, None, -1)})
+        mw = W.fit_eof(cls, sw, X, weights=wr)
+        W.check_single(ck, scn, sw, mw, tag=cls.__name__ + " (weights stored in reverse coordinate order)")
+        count["weights_reversed"] = 1
     # ExtendedEOF with a single embedding must be the same analysis (shares C01's statement)
     if c["dtype"] == "real" and i % 3 == 0 and not sw.lat and c["wp"] == "ones" and not c.get("constmode"):   # ExtendedEOF always centres
         m2 = W.fit_eof(xe.single.ExtendedEOF, sw, X, weights=None, tau=1, embedding=1)
